@@ -39,3 +39,29 @@ func egAddMarks(t *rapid.T, g *egSpec) {
 		}
 	}
 }
+
+// egAddCmdNullable gives nonterminals that end some alternative of an earlier nonterminal an
+// extra alternative that consists of a semantic action only (`| { _ = 0 }`): the nonterminal
+// becomes nullable through a command, which the range trimming of fixWhitespace has to know.
+func egAddCmdNullable(t *rapid.T, g *egSpec) {
+	lastOf := map[int]bool{}
+	for i, nt := range g.NTs {
+		for _, a := range nt.Alts {
+			if n := len(a.Parts); n > 1 && a.Parts[n-1].K == "n" && a.Parts[n-1].Sym > i {
+				lastOf[a.Parts[n-1].Sym] = true
+			}
+		}
+	}
+	for i, nt := range g.NTs {
+		if !lastOf[i] || rapid.IntRange(0, 2).Draw(t, "cmdNullable") == 0 {
+			continue
+		}
+		nullable := false
+		for _, a := range nt.Alts {
+			nullable = nullable || altMinLen(g, a, 0) == 0
+		}
+		if !nullable {
+			nt.Alts = append(nt.Alts, &egAlt{Parts: []*egPart{{K: "cmd"}}})
+		}
+	}
+}
